@@ -806,6 +806,9 @@ FAMS = {
           "Q: a = (A1 op1 A2) op (B1 op2 B2) with operands from {[user],[user,employee],y,z}, all 27 operator triples; b, c leaves (2592 models)"),
     "Q2": ({"R": 3, "NEST0": 2, "NEST1": 2, "L12": M(0, 1)},
            "Q2: a and b = (A1 op1 A2) op B1 with A1 in {[user], y}, A2, B1 in {y, z}, all 9 operator pairs each; c = [user]|[user,employee] (nested operators of the same kind in two relations; 10368 models)"),
+    "LP": ({"R": 3, "RELNAMES": 1, "L10": M(0, 4, 5, 9, 10, 16), "L11": M(0, 4, 5, 9, 10, 16, 17), "L12": M(0, 4, 5, 9, 10, 16, 17), "L22": M(16, 17), "OP2": 3},
+           "LP: as L with the relations named v, vi, vie (names that are prefixes of each other)"),
+    "HP": ({"R": 2, "RELNAMES": 1, "L10": LEAVES_ALL, "L11": LEAVES_ALL}, "HP: as H with the relations named v, vi"),
     "W": ({"R": 2, "L10": M(0, 16, 19), "L20": M(16, 19), "L11": M(0, 16)}, "W: a = [user] | b | b from p, optionally op (b | b from p) - parallel lines between the same two nodes; b = [user] | a (38 models)"),
     "L": ({"R": 3, "L10": M(0, 4, 5, 9, 10, 16), "L11": M(0, 4, 5, 9, 10, 16, 17), "L12": M(0, 4, 5, 9, 10, 16, 17), "L22": M(16, 17), "OP2": 3},
           "L: three relations with multi-userset restrictions (interlocking tuple cycles)"),
@@ -850,7 +853,7 @@ THOROUGH_GRAPH = [("J4", *RR), ("J5", *RR), ("J6", *RR), ("Q", *RR), ("N", *RA),
 
 
 def c04(tier):
-    graph_check("C04", 4, tier, [("B", *FI), ("J", *FI), ("J4", *FI), ("K", *FI), ("Q", *FI), ("Q2", *FI), ("N", *RA), ("H", *RR), ("L", *RR), ("C", *RA)], THOROUGH_GRAPH, extra_jobs=kernels())
+    graph_check("C04", 4, tier, [("B", *FI), ("J", *FI), ("J4", *FI), ("K", *FI), ("Q", *FI), ("Q2", *FI), ("N", *RA), ("H", *RR), ("L", *RR), ("LP", *RR), ("C", *RA)], THOROUGH_GRAPH, extra_jobs=kernels())
 
 
 def c05(tier):
@@ -859,7 +862,7 @@ def c05(tier):
 
 def c06(tier):
     twin = lambda name: dict(T("graph", "VerifC06_OperandOrder", dict(FAMS[name][0]), **FIRST), _reach=["accepted"])  # noqa
-    graph_check("C06", 6, tier, [("A", *AL), ("C", *RA), ("H", *RR), ("L", *RR), ("K", *RR)], THOROUGH_GRAPH, reach=["return"],
+    graph_check("C06", 6, tier, [("A", *AL), ("C", *RA), ("H", *RR), ("L", *RR), ("K", *RR), ("LP", *RR), ("HP", *RR)], THOROUGH_GRAPH, reach=["return"],
                 extra_jobs=[twin("B"), twin("K"), twin("N")] + ([twin("D")] if tier == "thorough" else []) +
                 [dict(T("graph", "VerifC06_Names", {}, sched="rot", sched_funcs=["AssignWeights", "WeightedAuthorizationModelGraphBuilder"], sched_other="first", prune=True), _reach=["accepted", "rejected"])])
 
